@@ -20,7 +20,8 @@ BOUNDS = {
 OUTSIDE = 'how the parser attaches wants to statements (C13/C01); what the match relation is (C05/C06); directives (C04); exceptions (C03)'
 ASSUMPTIONS = ['a part list as produced by the parser: want_lines of a part are non-empty strings',
                'variant uf: normalize+_check_match abstracted to an uninterpreted relation M(got, want)',
-               'when a value was evaluated and the captured stdout is empty, the want is compared with the value only (REPL semantics; the statement is silent here)']
+               'when a value was evaluated and the captured stdout is empty, the want is compared with the value only (REPL semantics; the statement is silent here)',
+               'a want may also equal the printed text followed by the repr of the value (what the interactive interpreter shows; accepted since fix 936bcfa)']
 
 
 def jobs(tier):
@@ -37,7 +38,7 @@ def jobs(tier):
 
 
 class Verdict(Harness):
-    witnesses = ('fail_after_pending_output', 'pass_needs_two_outputs', 'pass_only_via_repr', 'all_skipped',
+    witnesses = ('fail_after_pending_output', 'pass_needs_two_outputs', 'pass_only_via_repr', 'all_skipped', 'ignored_want_closes_the_window',
                  'repr_raises_fails', 'repr_raises_but_stdout_matches')
 
     def __init__(self, job):
@@ -45,6 +46,8 @@ class Verdict(Harness):
         from sea.symstr import SymStr
         self.job = job
         K = self.K = job['k']
+        if K < 3:
+            self.witnesses = tuple(w for w in self.witnesses if w != 'ignored_want_closes_the_window')
         oc, wc = job['ocap'], job['wcap']
         alph = 'ab' if job['variant'] == 'eq' else None
         self.base = []
@@ -66,8 +69,9 @@ class Verdict(Harness):
         self.haswant = [z3.Bool('haswant%d' % i) for i in range(K)]
         self.evaled = [z3.Bool('eval%d' % i) for i in range(K)]
         self.reprraises = [z3.Bool('repr_raises%d' % i) for i in range(K)]
+        self.ignorewant = [z3.Bool('inline_ignore_want%d' % i) for i in range(K)]
         if job['variant'] == 'uf':
-            self.M = hrun.MatchUF(K * oc, wc)
+            self.M = hrun.MatchUF((K + 1) * oc, wc)
             self.M.install(self.m['checker'])
             self.stubs = hrun.STUB_NOTES + ['checker.normalize -> identity, checker._check_match -> uninterpreted relation M']
         else:
@@ -94,13 +98,15 @@ class Verdict(Harness):
             hw = bool(SymBool(self.haswant[i]))
             ev = bool(SymBool(self.evaled[i])) if (hw and hc) else False
             rr = bool(SymBool(self.reprraises[i])) if ev else False
+            iw = bool(SymBool(self.ignorewant[i])) if hw else False
             src = ('x = 1 #%d#' if hc else '# nothing to run #%d#') % i
+            dirs = [m['directive'].Directive('IGNORE_WANT', True, [], True)] if iw else []
             p = m['doctest_part'].DoctestPart([src], want_lines=[self.wants[i]] if hw else None,
-                                              line_offset=i, orig_lines=['>>> ' + src], directives=[])
+                                              line_offset=i, orig_lines=['>>> ' + src], directives=dirs)
             if ev:
                 p.compile_mode = 'eval'
             parts.append(p)
-            cfg.append((hc, hw, ev, rr))
+            cfg.append((hc, hw, ev, rr, iw))
 
             def beh(code, glb, i=i, ev=ev, rr=rr):
                 E.cap.write(self.outs[i])
@@ -119,7 +125,7 @@ class Verdict(Harness):
         conds = []      # z3: part i does not fail
         runnable = []
         multi, viarepr = [], []
-        for i, (hc, hw, ev, rr) in enumerate(cfg):
+        for i, (hc, hw, ev, rr, iw) in enumerate(cfg):
             if not hc:
                 conds.append(z3.BoolVal(True))
                 continue
@@ -134,8 +140,11 @@ class Verdict(Harness):
                         empty = zbool(got == '')
                         # a value whose repr raises can only satisfy the want through stdout
                         cr = z3.BoolVal(False) if rr else self.CO(self.reprs[i], self.wants[i])
-                        flags.append(z3.If(empty, cr, z3.Or(self.CO(got, self.wants[i]), cr)))
-                conds.append(z3.Or(flags))
+                        # like the interactive interpreter: the echoed value may also follow what was printed
+                        both = z3.BoolVal(False) if rr else self.CO(got + self.reprs[i], self.wants[i])
+                        flags.append(z3.If(empty, cr, z3.Or(self.CO(got, self.wants[i]), cr, both)))
+                # a want under an inline IGNORE_WANT is not compared, but it still closes the window of pending output
+                conds.append(z3.BoolVal(True) if iw else z3.Or(flags))
                 if len(flags) >= 2:
                     multi.append(z3.And(z3.Not(flags[0]), flags[1]))
                 if ev and not rr:
@@ -188,6 +197,9 @@ class Verdict(Harness):
             ex.witness('pass_only_via_repr', z3.And(z3.Or(viarepr), z3.BoolVal(not summ['failed'])))
         if not runnable:
             ex.witness('all_skipped', True)
+        for i, c in enumerate(cfg):
+            if c[4] and any(not cfg[j][1] and cfg[j][0] for j in range(i)) and any(cfg[j][1] and cfg[j][0] for j in range(i + 1, K)):
+                ex.witness('ignored_want_closes_the_window', True)
         return props
 
     def describe(self, model):
@@ -199,7 +211,8 @@ class Verdict(Harness):
                           'eval': b(self.evaled[i]) and b(self.haswant[i]) and b(self.hascode[i]),
                           'stdout': self.outs[i].concrete(model), 'want': self.wants[i].concrete(model),
                           'repr': self.reprs[i].concrete(model), 'str': self.strs[i].concrete(model),
-                          'repr_raises': b(self.reprraises[i]) and b(self.evaled[i]) and b(self.haswant[i]) and b(self.hascode[i])})
+                          'repr_raises': b(self.reprraises[i]) and b(self.evaled[i]) and b(self.haswant[i]) and b(self.hascode[i]),
+                          'ignore_want': b(self.ignorewant[i]) and b(self.haswant[i]) and b(self.hascode[i])})
         return {'variant': self.job['variant'], 'parts': parts}
 
 
@@ -216,6 +229,9 @@ def reference(parts):
         if not p['has_code']:
             continue
         trace.append(i)
+        if p['has_want'] and p.get('ignore_want'):
+            pending = []
+            continue
         if p['has_want']:
             ok = False
             outs = pending + [p['stdout']]
@@ -223,7 +239,8 @@ def reference(parts):
                 got = ''.join(outs[-t:])
                 if p['eval']:
                     viarepr = (not p.get('repr_raises')) and p['repr'] == p['want']
-                    ok = ok or (viarepr if got == '' else (got == p['want'] or viarepr))
+                    both = (not p.get('repr_raises')) and (got + p['repr']) == p['want']
+                    ok = ok or (viarepr if got == '' else (got == p['want'] or viarepr or both))
                 else:
                     ok = ok or got == p['want']
             if not ok:
@@ -249,8 +266,10 @@ def real_run(parts):
             src = '__f(%d, %r, %r, %r, %r)' % (i, p['stdout'], p['repr'], p.get('str', p['repr']), bool(p.get('repr_raises')))
         else:
             src = '__g(%d, %r)' % (i, p['stdout'])
+        from xdoctest import directive as _dir
         rp = doctest_part.DoctestPart([src], want_lines=p['want'].split('\n') if p['has_want'] else None,
-                                      line_offset=i, orig_lines=['>>> ' + src], directives=[])
+                                      line_offset=i, orig_lines=['>>> ' + src],
+                                      directives=[_dir.Directive('IGNORE_WANT', True, [], True)] if p.get('ignore_want') else [])
         if p['eval']:
             rp.compile_mode = 'eval'
         real_parts.append(rp)
